@@ -25,7 +25,7 @@ var OCSPBehaviours = []string{
 	// authentic
 	"good", "good-delegate", "good-byname", "good-multi", "good-embed-issuer",
 	"revoked", "revoked-keycompromise", "revoked-hold", "revoked-remove", "revoked-reason7", "revoked-reason10",
-	"revoked-inv-before", "revoked-inv-equal", "revoked-inv-after", "revoked-inv-malformed", "revoked-inv-undecodable", "revoked-after-st", "revoked-after-st-inv-before",
+	"revoked-inv-before", "revoked-inv-equal", "revoked-inv-after", "revoked-inv-far-future", "revoked-inv-malformed", "revoked-inv-undecodable", "revoked-after-st", "revoked-after-st-inv-before",
 	"unknown-status",
 	// forged
 	"forged-unrelated-nocert", "forged-unrelated-selfsigned", "forged-samename-ca", "forged-samename-ca-dressed", "forged-samename-delegate",
@@ -111,7 +111,7 @@ func OCSPClass(beh string, withST bool, issuerSelfSigned bool) string {
 		// issued by the issuer with anyExtendedKeyUsage only: whether that
 		// "authorises for OCSP signing" is not settled by the statement
 		return ClsEitherOK
-	case "revoked-inv-after":
+	case "revoked-inv-after", "revoked-inv-far-future":
 		if withST {
 			return ClsOK
 		}
@@ -200,7 +200,7 @@ func (k *Kit) build(beh string) netsim.Reply {
 		}
 		r.Singles = []pki.OCSPSingle{s}
 		return body(r)
-	case "revoked-inv-before", "revoked-inv-equal", "revoked-inv-after", "revoked-inv-malformed", "revoked-inv-undecodable", "forged-revoked-inv-after":
+	case "revoked-inv-before", "revoked-inv-equal", "revoked-inv-after", "revoked-inv-far-future", "revoked-inv-malformed", "revoked-inv-undecodable", "forged-revoked-inv-after":
 		r := base()
 		s := k.single(pki.OCSPRevoked)
 		s.Reason = 1
@@ -211,6 +211,10 @@ func (k *Kit) build(beh string) netsim.Reply {
 			s.Invalidity = &equal
 		case "revoked-inv-after":
 			s.Invalidity = &after
+		case "revoked-inv-far-future":
+			// later than the signing time and later than any wall clock
+			far := time.Date(2095, 1, 1, 0, 0, 0, 0, time.UTC)
+			s.Invalidity = &far
 		case "revoked-inv-malformed":
 			s.InvalidityRaw = append(pki.GeneralizedTimeDER(after), 0x05, 0x00) // trailing data
 		case "revoked-inv-undecodable":
